@@ -59,7 +59,7 @@ def do_replay(prop, path):
     same = [x for x in fails if x["key"] == rec["key"]]
     for x in fails:
         print(f"replay: {x['key']}: {x['what']}")
-    if same or (rec["key"].startswith("crash") and fails):
+    if same or (rec["key"].startswith("crash") and any(x["key"].startswith("crash") for x in fails)):
         print(f"VIOLATION property={prop} replay={path}")
         return 1
     print("replay: no failure reproduced")
@@ -127,8 +127,11 @@ def main(argv=None):
                 case = json.loads(res.get("journal", "").strip() or "null")
             except Exception:
                 case = {"journal": res.get("journal", "")}
+            ckey = "crash"
+            if isinstance(case, dict) and case.get("_key"):
+                ckey = "crash:" + str(case["_key"])
             failures.append({
-                "key": "crash", "case": case if case is not None else {"shard": specs[sid]},
+                "key": ckey, "case": case if case is not None else {"shard": res.get("spec")},
                 "what": res["crash"] + " | " + res.get("stderr", "")[-1500:],
             })
             continue
